@@ -50,7 +50,11 @@ func (x *Exec) specCtx(st *State, fr *Frame) *SpecCtx {
 		for _, a := range fr.contract.Asserts {
 			if a.Bind != "" {
 				if _, ok := ctx.names[a.Bind]; !ok {
-					ctx.names[a.Bind] = x.b.Fresh("unbound."+a.Bind, SInt)
+					srt := SInt
+					if a.E.Kind == "call" && (a.E.Name == "arr" || a.E.Name == "upd") {
+						srt = SArr(SInt, SInt)
+					}
+					ctx.names[a.Bind] = x.b.Fresh("unbound."+a.Bind, srt)
 				}
 			}
 		}
